@@ -192,30 +192,30 @@ package disk
 //@   call Get#1 asserts[C06] treeblob: arg2 == 1 && arg3 == d.TreeDigest.Hash && arg4 == d.TreeDigest.SizeBytes && arg5 == 0
 //@   call ActionResult#* asserts[C11] validates: arg0 == result
 //@   loop 0 invariant[C06] files: filesCovered(result, pendingValidations, rangeindex + 1)
-//@   loop 0 invariant fresh: !old(allocated(arr(pendingValidations)))
+//@   loop 0 invariant fresh: !old(allocated(arr(pendingValidations))) && allocated(arr(pendingValidations))
 //@   loop 0 invariant nn: forall k Int :: (lo(pendingValidations) <= k && k < hi(pendingValidations)) ==> elems(pendingValidations)[k] != 0
 //@   loop 0 modifies elems(pendingValidations)
 //@   loop 1 invariant[C06] files: filesCovered(result, pendingValidations, len(result.OutputFiles))
 //@   loop 1 invariant frame: !muHeld && held == old(held)
 //@   loop 1 modifies lruState(c.lru), held, resN, hitN, hitSize, adopted, tmpOpen, tmpName, tmpRandom, tfc.idum, elems(pendingValidations), ioState()
-//@   loop 1 invariant fresh: !old(allocated(arr(pendingValidations)))
+//@   loop 1 invariant fresh: !old(allocated(arr(pendingValidations))) && allocated(arr(pendingValidations))
 //@   loop 1 invariant nn: forall k Int :: (lo(pendingValidations) <= k && k < hi(pendingValidations)) ==> elems(pendingValidations)[k] != 0
 //@   loop 2 invariant[C06] files: filesCovered(result, pendingValidations, len(result.OutputFiles))
 //@   loop 2 invariant[C06] root: tree.Root != nil ==> nodesCovered(tree.Root, pendingValidations, rangeindex + 1)
-//@   loop 2 invariant fresh: !old(allocated(arr(pendingValidations)))
+//@   loop 2 invariant fresh: !old(allocated(arr(pendingValidations))) && allocated(arr(pendingValidations))
 //@   loop 2 invariant sameorfresh: arr(pendingValidations) == arr(pendingValidations$1) || !allocatedAt(1, arr(pendingValidations))
 //@   loop 2 invariant nn: forall k Int :: (lo(pendingValidations) <= k && k < hi(pendingValidations)) ==> elems(pendingValidations)[k] != 0
 //@   loop 2 modifies elems(pendingValidations)
 //@   loop 3 invariant[C06] files: filesCovered(result, pendingValidations, len(result.OutputFiles))
 //@   loop 3 invariant[C06] root: tree.Root != nil ==> nodesCovered(tree.Root, pendingValidations, len(tree.Root.Files))
-//@   loop 3 invariant fresh: !old(allocated(arr(pendingValidations)))
+//@   loop 3 invariant fresh: !old(allocated(arr(pendingValidations))) && allocated(arr(pendingValidations))
 //@   loop 3 invariant sameorfresh: arr(pendingValidations) == arr(pendingValidations$1) || !allocatedAt(1, arr(pendingValidations))
 //@   loop 3 invariant nn: forall k Int :: (lo(pendingValidations) <= k && k < hi(pendingValidations)) ==> elems(pendingValidations)[k] != 0
 //@   loop 3 modifies elems(pendingValidations)
 //@   loop 4 invariant[C06] files: filesCovered(result, pendingValidations, len(result.OutputFiles))
 //@   loop 4 invariant[C06] root: tree.Root != nil ==> nodesCovered(tree.Root, pendingValidations, len(tree.Root.Files))
 //@   loop 4 invariant[C06] child: child != nil ==> nodesCovered(child, pendingValidations, rangeindex + 1)
-//@   loop 4 invariant fresh: !old(allocated(arr(pendingValidations)))
+//@   loop 4 invariant fresh: !old(allocated(arr(pendingValidations))) && allocated(arr(pendingValidations))
 //@   loop 4 invariant sameorfresh: arr(pendingValidations) == arr(pendingValidations$1) || !allocatedAt(1, arr(pendingValidations))
 //@   loop 4 invariant nn: forall k Int :: (lo(pendingValidations) <= k && k < hi(pendingValidations)) ==> elems(pendingValidations)[k] != 0
 //@   loop 4 modifies elems(pendingValidations)
